@@ -23,6 +23,8 @@ for d in sorted(glob.glob('/verif/seeded/*/'),key=_k):
         status='not detectable here (see text)'
     if not m['detected'] and m.get('outside_documented_syntax'):
         status='not judged: affects only input outside the documented syntax (see text)'
+    if not m['detected'] and m.get('not_judged_reason'):
+        status='not judged: the statement does not decide it (see strengthening.txt)'
     if not m.get('confirmed_by_me',True): status='not confirmed (discarded)'
     rows.append((name,w.replace('|','\\|'),status,fp.replace('|','\\|')))
 print('| change | what it does (author\'s first line) | result | first fingerprint reported |')
@@ -30,4 +32,4 @@ print('|---|---|---|---|')
 for r in rows: print('| %s | %s | %s | `%s` |'%r)
 n=len(rows); c=sum(1 for r in rows if r[2]=='caught'); s=sum(1 for r in rows if 'after' in r[2]); o=sum(1 for r in rows if 'caught by' in r[2]); mi=sum(1 for r in rows if r[2]=='**missed**'); nj=sum(1 for r in rows if r[2].startswith('not judged'))
 print()
-print('%d changes: %d caught by the owning check at first evaluation, %d caught by it after strengthening, %d caught only by a neighbouring property\'s check, %d not judged (outside the documented syntax), %d missed.'%(n,c,s,o,nj,mi))
+print('%d changes: %d caught by the owning check at first evaluation, %d caught by it after strengthening, %d caught only by a neighbouring property\'s check, %d not judged (outside the documented syntax or the statement), %d missed.'%(n,c,s,o,nj,mi))
